@@ -125,7 +125,7 @@ class CoordinateTransformer:
 
         if name is not None and len(name.strip()) > 0:
             transform = self._named_transforms[name.strip()]
-            self._current_transform = transform
+            self._current_transform = copy.deepcopy(transform)
         else:
             transform = self._transforms_stack.pop()
             self._current_transform = transform
